@@ -83,9 +83,13 @@ Section Steps.
     destruct (IH _ H1) as (I1 & I2 & I3). rewrite I2, I3. auto.
   Qed.
 
-  (* lazy: as long as no Put has been issued on a writer that is not closed, nothing is written and no
-     file exists -- in every state along the history *)
+  (* lazy: as long as no Put has been issued on a writer that is not closed, nothing is written and the
+     output path is as it was (absent, or the pre-existing file with its bytes) -- in every state along
+     the history *)
   Definition idle (st : dstate) : Prop := d_inner st = None /\ d_created st = false.
+
+  Lemma idle_obs st : idle st -> d_bytes c st = pre_bytes c /\ d_exists c st = pre_exists c.
+  Proof. intros (H1 & H2). unfold d_bytes, d_exists. rewrite H1, H2. auto. Qed.
 
   Lemma idle_step st op : idle st -> (d_closed st = true \/ is_put op = false) -> idle (fst (d_step c st op)).
   Proof.
@@ -97,7 +101,7 @@ Section Steps.
 
   Theorem lazy_trace ops : forall st, idle st ->
     (if d_closed st then True else d_puts ops = []) ->
-    Forall (fun so => d_bytes (fst so) = [] /\ d_exists (fst so) = false) (d_trace c st ops).
+    Forall (fun so => d_bytes c (fst so) = pre_bytes c /\ d_exists c (fst so) = pre_exists c) (d_trace c st ops).
   Proof.
     induction ops as [|op t IH]; intros st Hi Hp; [constructor|]. cbn [d_trace].
     assert (Hstep : d_closed st = true \/ is_put op = false).
@@ -110,7 +114,7 @@ Section Steps.
         destruct op; cbn [d_puts] in Hp; try exact Hp; try discriminate.
         pose proof (close_closes st). congruence. }
     destruct (d_step c st op) as [st' o]. cbn [fst] in *. constructor.
-    - cbn [fst]. destruct Hi' as (H1 & H2). unfold d_bytes, d_exists. rewrite H1, H2. auto.
+    - cbn [fst]. apply idle_obs. exact Hi'.
     - apply IH; assumption.
   Qed.
 
@@ -192,12 +196,47 @@ Qed.
 
 (* from the initial state *)
 Theorem lazy_init c ops : d_puts ops = [] ->
-  Forall (fun so => d_bytes (fst so) = [] /\ d_exists (fst so) = false) (d_trace c d_init ops).
+  Forall (fun so => d_bytes c (fst so) = pre_bytes c /\ d_exists c (fst so) = pre_exists c) (d_trace c d_init ops).
 Proof. intros H. apply lazy_trace; [split; reflexivity|exact H]. Qed.
 
 Theorem identical_init c ops s : d_inner (d_run c d_init ops) = Some s ->
   exists s0, direct_open c = Ok s0 /\ s = direct_run s0 (d_puts ops) (existsb is_close ops).
 Proof. apply identical_from; reflexivity. Qed.
+
+(* the observable output once a writer exists: exactly the direct writer's file, and the file exists
+   (path target) -- dc_pre does not occur on the right-hand side: whatever was at the path is gone *)
+Theorem output_is_direct c ops s : d_inner (d_run c d_init ops) = Some s ->
+  exists s0, direct_open c = Ok s0 /\
+             d_bytes c (d_run c d_init ops) = ws_file (direct_run s0 (d_puts ops) (existsb is_close ops)).
+Proof.
+  intros H. destruct (identical_init c ops s H) as (s0 & H0 & H1). exists s0. split; [exact H0|].
+  unfold d_bytes. rewrite H, H1. reflexivity.
+Qed.
+
+Lemma direct_open_ignores_pre c pre :
+  direct_open (mkdcfg (dc_target c) (dc_opts c) (dc_v1_given c) (dc_nilroots c) (dc_roots c) pre) = direct_open c.
+Proof. reflexivity. Qed.
+
+(* the inner writer exists only after the path was opened with create+truncate (path target) *)
+Lemma created_when_inner c ops : forall st, (d_inner st <> None -> dc_target c = TPath -> d_created st = true) ->
+  d_inner (d_run c st ops) <> None -> dc_target c = TPath -> d_created (d_run c st ops) = true.
+Proof.
+  induction ops as [|op t IH]; intros st Hst; [exact Hst|]. rewrite d_run_cons. apply IH. clear IH.
+  destruct op as [id once|k|k d|]; cbn [d_step].
+  - exact Hst.
+  - destruct (d_closed st); [exact Hst|]. destruct (d_inner st) as [w|] eqn:E; cbn [fst]; rewrite ?E; exact Hst.
+  - destruct (d_closed st); [exact Hst|]. rewrite fire_spec. unfold d_writer. cbn [d_inner d_created d_cbs d_closed].
+    destruct (d_inner st) as [w|] eqn:E.
+    + destruct (st_put w k d). cbn [fst d_created]. intros _ Ht. apply Hst; [congruence|exact Ht].
+    + destruct (direct_open c) as [s0|e]; [destruct (st_put s0 k d)|]; cbn [fst d_inner d_created]; intros _ Ht; rewrite Ht; reflexivity.
+  - destruct (d_closed st); [exact Hst|]. destruct (d_inner st) as [w|] eqn:E; [destruct (st_finalize w)|]; cbn [fst d_inner d_created].
+    + intros _ Ht. apply Hst; [congruence|exact Ht].
+    + congruence.
+Qed.
+
+Theorem created_init c ops :
+  d_inner (d_run c d_init ops) <> None -> dc_target c = TPath -> d_created (d_run c d_init ops) = true.
+Proof. apply created_when_inner. intros H. exfalso. apply H. reflexivity. Qed.
 
 (* a Put's result is the direct writer's result for that Put *)
 Theorem put_result_direct c pre k d s :
@@ -214,13 +253,15 @@ Definition exd_k1 : bytes := cid_enc (mkcid 1 85 18 exd_digest).
 Definition exd_k2 : bytes := cid_enc (mkcid 1 112 18 exd_digest).     (* same multihash: skipped *)
 Definition exd_k3 : bytes := cid_enc (mkcid 1 113 18 (rev exd_digest)).
 Definition exd_o : wopts := mkwopts 0 0 1025 false 2048 false false false false 33554432 8388608.
-Definition exd_cfg : dcfg := mkdcfg TStream exd_o false false [exd_k1].
+Definition exd_cfg : dcfg := mkdcfg TStream exd_o false false [exd_k1] None.
+(* a path target on which a 500-byte file already sits *)
+Definition exd_pcfg : dcfg := mkdcfg TPath exd_o false false [exd_k1] (Some (zeros 500)).
 Definition exd_ops : list dop :=
   [DOnPut 1 false; DHas exd_k1; DOnPut 2 true; DPut exd_k1 [x01; x02]; DOnPut 3 true; DPut exd_k2 [x01; x02];
    DPut exd_k3 [x03]; DHas exd_k3; DClose; DPut exd_k1 [x01]; DHas exd_k1; DClose].
 
 Example C20_example_logs :
-  map (fun so => (do_res (snd so), do_log (snd so), blen (d_bytes (fst so)))) (d_trace exd_cfg d_init exd_ops)
+  map (fun so => (do_res (snd so), do_log (snd so), blen (d_bytes exd_cfg (fst so)))) (d_trace exd_cfg d_init exd_ops)
   = [(ONil, [], 0); (OBool false, [], 0); (ONil, [], 0); (ONil, [(1, 2); (2, 2)], 98); (ONil, [], 98);
      (ONil, [(1, 2); (3, 2)], 98); (ONil, [(1, 1)], 136); (OBool true, [], 136); (ONil, [], 136);
      (OErr EClosed, [], 136); (OErr EClosed, [], 136); (OErr EClosed, [], 136)].
@@ -238,6 +279,14 @@ Proof.
 Qed.
 
 Example C20_example_lazy :
-  Forall (fun so => d_bytes (fst so) = [] /\ d_exists (fst so) = false)
-         (d_trace (mkdcfg TPath exd_o false false [exd_k1]) d_init [DOnPut 1 true; DHas exd_k1; DClose; DPut exd_k1 [x01]; DHas exd_k1]).
-Proof. apply lazy_init. reflexivity. Qed.
+  Forall (fun so => d_bytes exd_pcfg (fst so) = zeros 500 /\ d_exists exd_pcfg (fst so) = true)
+         (d_trace exd_pcfg d_init [DOnPut 1 true; DHas exd_k1; DClose; DPut exd_k1 [x01]; DHas exd_k1]).
+Proof. apply (lazy_init exd_pcfg). reflexivity. Qed.
+
+(* the 500-byte file is replaced by the 297 bytes of the finished CARv2, nothing of it survives *)
+Example C20_example_overwrites_longer_file :
+  map (fun so => blen (d_bytes exd_pcfg (fst so))) (d_trace exd_pcfg d_init exd_ops)
+  = [500; 500; 500; 149; 149; 149; 187; 187; 297; 297; 297; 297] /\
+  d_bytes exd_pcfg (d_run exd_pcfg d_init exd_ops)
+  = d_bytes (mkdcfg TPath exd_o false false [exd_k1] None) (d_run (mkdcfg TPath exd_o false false [exd_k1] None) d_init exd_ops).
+Proof. vm_compute. split; reflexivity. Qed.
